@@ -218,10 +218,10 @@ theorem intoAddr_spec (c : Comp) :
     intoAddr c = if c.nameLen = 0 then none else some (c.name.take c.nameLen) := by
   unfold intoAddr; by_cases h : c.nameLen = 0 <;> simp [h]
 
-/-- polling-only build: the fallback multishot datagram op records the result, so `data()` is what
-was received -/
+/-- polling path of the multishot datagram receives (every build since the F140 repair): the fallback
+op records the result, so `data()` is exactly what was received -/
 theorem fallbackMulti_ok (cap : Nat) (w : Bytes) (hw : w.length ≤ cap) :
-    ((FallbackMulti.mk ((Buf.poolOf cap).write w) 0).setResult false w.length).takeBuffer
+    ((FallbackMulti.mk ((Buf.poolOf cap).write w) 0).setResult w.length).takeBuffer
       = .ok ⟨.pool, w, w.length, cap⟩ := by
   simp [FallbackMulti.setResult, FallbackMulti.takeBuffer, pool_write_advance cap w hw]
 
